@@ -333,23 +333,30 @@ Fixpoint seq_own (offs : nat -> nat -> Q * Q) (e : nat) (ps : list mpricing) (os
   | _, _ => False
   end.
 
-Lemma manager_used_reset e prev K l : manager_used (managers true e prev K) e l = (e, l).
-Proof. unfold manager_used, managers. cbn [app]. destruct (Nat.lt_ge_cases l (S K)) as [H|H].
-  - rewrite (nth_indep _ (e, l) ((fun l => (e, l)) 0%nat)) by (rewrite map_length, seq_length; exact H).
-    rewrite (map_nth (fun l => (e, l)) (seq 0 (S K)) 0%nat l). now rewrite seq_nth.
-  - apply nth_overflow. rewrite map_length, seq_length. exact H. Qed.
+(* the lookup never fails, and next_level calls for higher levels (appends behind) do not change it *)
+Lemma manager_used_some base e l : exists t, manager_used base e l = Some t.
+Proof. unfold manager_used. destruct (nth_error (managers_at e base l) l) eqn:E; [eauto|].
+  apply nth_error_None in E. unfold managers_at in E. rewrite app_length, map_length, seq_length in E. lia. Qed.
+Lemma lookup_stable base e l K : (l <= K)%nat -> nth_error (managers_at e base K) l = nth_error (managers_at e base l) l.
+Proof. intros H. unfold managers_at. replace (S K) with (S l + (K - l))%nat by lia. rewrite seq_app, map_app, app_assoc.
+  apply nth_error_app1. rewrite app_length, map_length, seq_length. lia. Qed.
+
+Lemma manager_used_reset e prev l : manager_used (base_of true prev) e l = Some (e, l).
+Proof. unfold manager_used, managers_at, base_of. cbn [app].
+  rewrite (nth_error_nth' _ (e, l)) by (rewrite map_length, seq_length; lia). f_equal.
+  rewrite (nth_indep _ (e, l) ((fun k => (e, k)) 0%nat)) by (rewrite map_length, seq_length; lia).
+  rewrite (map_nth (fun k => (e, k)) (seq 0 (S l)) 0%nat l). rewrite seq_nth by lia. reflexivity. Qed.
 
 (* repaired engine: whatever managers earlier pricings left behind, pricing number e holds, on every level l, exactly
    its own samples seen through the manager (e, l) created for it *)
 Theorem engine_reuse offs : forall ps e prev, seq_own offs e ps (run_seq offs true e prev ps).
 Proof. induction ps as [|p r IH]; intros e prev; simpl; [exact I|]. split; [|apply IH].
-  set (pms := managers true e prev (mp_fuel p + mp_L0 p)).
-  pose proof (rows_are_samples (mp_sample offs pms e p) (mp_cost p) (mp_alloc p) (mp_conv p) (mp_garbage p)
+  pose proof (rows_are_samples (mp_sample offs (base_of true prev) e p) (mp_cost p) (mp_alloc p) (mp_conv p) (mp_garbage p)
                 (mp_df p) (mp_notional p) (mp_level_max p) (mp_fuel p) (mp_L0 p) (mp_N0 p)) as H.
   unfold final_ok in H. unfold own_rows.
   destruct (price_run _ _ _ _ _ _ _ _ _ _ _ _); try exact I;
     (eapply all_lev_impl; [|exact H]; intros l v [Hc Hr]; split; [exact Hc|]; rewrite Hr; unfold samples_of;
-     apply map_ext; intros i; unfold mp_sample, pms; rewrite manager_used_reset; reflexivity). Qed.
+     apply map_ext; intros i; unfold mp_sample; rewrite manager_used_reset; reflexivity). Qed.
 
 (* before the repair (list only appended to): the second pricing sees level 0 through the manager of the FIRST pricing *)
 Definition w_pricing : mpricing :=
